@@ -12,10 +12,11 @@ import random
 
 from . import corpus, fastpacket as fp
 
-PGN = {"A": 127250, "B": 130306, "F": 128275, "CLAIM": 60928, "P": 61184, "P1": 61184, "P2": 61184, "Q": 65285, "Q1": 65285}
+PGN = {"A": 127250, "B": 130306, "F": 128275, "CLAIM": 60928, "P": 61184, "P1": 61184, "P2": 61184, "Q": 65285, "Q1": 65285,
+       "T1": 130312, "T2": 130316}        # T1 / T2: two PGNs of which one id is the beginning of the other
 IDS = {"A": "vesselHeading", "B": "windData", "F": "distanceLog", "CLAIM": "isoAddressClaim",
        "P1": "victronBatteryRegister", "P2": "0xef00ManufacturerProprietarySingleFrameAddressed",
-       "Q1": "airmarBootStateAcknowledgment"}
+       "Q1": "airmarBootStateAcknowledgment", "T1": "temperature", "T2": "temperatureExtendedRange"}
 MFR = {"m1": "Furuno", "m2": "Maretron"}
 UNKNOWN_PGN = 129285 + 30000        # checked at run time not to be in the database
 SRC = {1: 11, 2: 12, 3: 13}
@@ -97,6 +98,10 @@ def packet_for(ev: dict, counter: list) -> tuple[Frame, dict]:
             payload = bytes([0x66, 0x99, c % 250, 0x01, 0x10 + c % 100, 0x02, 0x03, 0x00])
         elif ev["pgn"] == "P2":            # no manufacturer definition matches: the PGN's fallback definition
             payload = bytes([0x05, 0x18, c % 250 + 1, 0x11, 0x22, 0x33, 0x44, 0x55])
+        elif ev["pgn"] == "T1":            # temperature: sid, instance, source, actual (0.01 K), set (0.01 K), reserved
+            payload = bytes([c % 250, 1, 2, 0x10 + c % 100, 0x70, 0x20, 0x71, 0xFF])
+        elif ev["pgn"] == "T2":            # temperature, extended range: sid, instance, source, 24-bit 0.001 K, set (0.1 K)
+            payload = bytes([c % 250, 1, 2, 0x10 + c % 100, 0x70, 0x04, 0x20, 0x0B])
         elif ev["pgn"] == "Q1":            # Airmar boot state (manufacturer 135, industry 4); PGN 65285 has no fallback
             payload = bytes([0x87, 0x98, 0xF8 | (c % 3), 0xFF, 0xFF, 0xFF, 0xFF, 0xFF])
         else:
